@@ -66,6 +66,13 @@ def verify_root(trusted_current_root_metadata, untrusted_new_root_metadata):
             '"root".'
         )
 
+    for root_metadata in (trusted_current_root_metadata, untrusted_new_root_metadata):
+        if "root" not in root_metadata["signed"]["delegations"]:
+            raise ValueError(
+                'Root metadata must include a delegation to "root" (the keys and '
+                "threshold for the next version of root metadata)."
+            )
+
     # Extract rules for root from old, trusted version of root.
     root_expectations = trusted_current_root_metadata["signed"]["delegations"]["root"]
     expected_threshold = root_expectations["threshold"]
